@@ -269,16 +269,17 @@ Definition cdef : string -> bool := contains_def "#" ":" "=".
 
 Lemma bridge_view : view_gen = vw.
 Proof. reflexivity. Qed.
-Lemma bridge_scan_lines : scan_lines_gen = fun lines f => find_field f [] (map vw lines).
+Lemma bridge_scan_lines : scan_lines_gen = fun lines f => find_field FIX_WALK f [] (map vw lines).
 Proof. reflexivity. Qed.
 
 (* header lines (decorators, the class line, what is left of the class docstring): not field definitions, and
-   either carrying a triple quote or no comment *)
-Definition hdr_ok (v : lview) : bool := negb (v_isdef v) && (v_quote v || String.eqb (v_comment v) "").
+   either a line the upward walk stops at (a triple quote; with the walk repair: any code line) or without a comment *)
+Definition hdr_ok (so : bool) (v : lview) : bool :=
+  negb (v_isdef v) && (v_quote v || (so && negb (v_empty v || v_iscomment v)) || String.eqb (v_comment v) "").
 
 Definition wf_layout (L : layout) : bool :=
   match l_hdr L with [] => false | _ => true end
-  && forallb (fun l => hdr_ok (view_gen l)) (l_hdr L)
+  && forallb (fun l => hdr_ok FIX_WALK (view_gen l)) (l_hdr L)
   && forallb fld_ok (l_fields L).
 
 (* ---------- consequences of the boolean predicates ---------- *)
@@ -767,9 +768,9 @@ Section Groups.
   Qed.
 
   (* ----- lines that do not define f ----- *)
-  Lemma find_field_skip f vs : forall ctx rest,
+  Lemma find_field_skip so f vs : forall ctx rest,
     (forall v, In v vs -> defines f v = false) ->
-    find_field f ctx (vs ++ rest) = find_field f (rev vs ++ ctx) rest.
+    find_field so f ctx (vs ++ rest) = find_field so f (rev vs ++ ctx) rest.
   Proof.
     induction vs as [|v r IH]; intros ctx rest H; [reflexivity|].
     simpl. rewrite (H v (or_introl eq_refl)).
@@ -813,12 +814,17 @@ Section Groups.
     render_fld ind g = (pre_lines g ++ field_line ind g :: match f_below g with Some d => render_below ind d | None => [] end)%list.
   Proof. reflexivity. Qed.
 
-  Lemma pre_not_stop g v : fld_ok g = true -> In v (V (pre_lines g)) -> v_isdef v = false /\ v_quote v = false.
+  Lemma pre_not_stop g v : fld_ok g = true -> In v (V (pre_lines g)) ->
+    v_isdef v = false /\ forall so, walk_stop so v = false.
   Proof.
     intros H Hv. destruct (fld_ok_parts g H) as [_ [_ [_ [Hab _]]]].
     unfold pre_lines in Hv. rewrite V_app in Hv. apply in_app_or in Hv as [Hv|Hv].
-    - rewrite (blanks_views _ _ Hv). split; reflexivity.
-    - destruct (comments_views _ _ Hab Hv) as [A [B _]]. now split.
+    - rewrite (blanks_views _ _ Hv), view_blank. split; [reflexivity | intros []; reflexivity].
+    - unfold V in Hv. rewrite map_map in Hv. apply in_map_iff in Hv as [c [<- Hc]].
+      rewrite forallb_forall in Hab.
+      destruct (comment_line_view ind c Hind (Hab c Hc)) as [A [B [_ [D _]]]].
+      split; [exact A|]. intros so. unfold walk_stop, cline. rewrite A, B, D, orb_true_r.
+      destruct so; reflexivity.
   Qed.
 
   Lemma group_other f g : fld_ok g = true -> String.eqb (f_name g) f = false ->
@@ -835,20 +841,19 @@ Section Groups.
 End Groups.
 
 (* ----- the upward walk ----- *)
-Lemma walk_up_app A C :
-  (forall v, In v A -> v_isdef v = false /\ v_quote v = false) -> walk_up (A ++ C) = (A ++ walk_up C)%list.
+Lemma walk_up_app so A C :
+  (forall v, In v A -> walk_stop so v = false) -> walk_up so (A ++ C) = (A ++ walk_up so C)%list.
 Proof.
   induction A as [|a r IH]; intros H; [reflexivity|].
-  simpl. destruct (H a (or_introl eq_refl)) as [H1 H2]. rewrite H1, H2. simpl.
+  cbn [app walk_up]. rewrite (H a (or_introl eq_refl)).
   f_equal. apply IH. intros v Hv. apply H. now right.
 Qed.
 
-Lemma walk_up_sub l v : In v (walk_up l) -> In v l /\ v_quote v = false.
+Lemma walk_up_sub so l v : In v (walk_up so l) -> In v l /\ walk_stop so v = false.
 Proof.
-  induction l as [|a r IH]; simpl; [intros []|].
-  destruct (v_isdef a || v_quote a) eqn:E; [intros []|].
-  apply orb_false_iff in E as [_ E2].
-  intros [<-|H]; [split; [now left | exact E2]|]. destruct (IH H) as [H1 H2]. split; [now right | exact H2].
+  induction l as [|a r IH]; cbn [walk_up]; [intros []|].
+  destruct (walk_stop so a) eqn:E; [intros []|].
+  intros [<-|H]; [split; [now left | exact E]|]. destruct (IH H) as [H1 H2]. split; [now right | exact H2].
 Qed.
 
 Lemma in_removelast {A} (l : list A) x : In x (removelast l) -> In x l.
@@ -859,8 +864,8 @@ Qed.
 
 (* C: everything above a group, nearest line first, line 0 last.  quiet: whatever the walk still collects
    there contributes no comment text *)
-Definition quiet (C : list lview) : Prop :=
-  C <> [] /\ forall v, In v (walk_up (removelast C)) -> v_comment v = "".
+Definition quiet (so : bool) (C : list lview) : Prop :=
+  C <> [] /\ forall v, In v (walk_up so (removelast C)) -> v_comment v = "".
 
 Lemma is_space_NL : is_space NL = true.
 Proof. reflexivity. Qed.
@@ -920,13 +925,14 @@ Section Above.
     split; [f_equal; exact I1 | f_equal; [exact E | exact I2]].
   Qed.
 
-  Lemma comment_above_group g C : fld_ok g = true -> quiet C ->
-    comment_above (rev (V (pre_lines ind g)) ++ C) = join_text (f_above g).
+  Lemma comment_above_group so g C : fld_ok g = true -> quiet so C ->
+    comment_above so (rev (V (pre_lines ind g)) ++ C) = join_text (f_above g).
   Proof.
     intros Hg [Hne Hq]. destruct (fld_ok_parts g Hg) as [_ [_ [_ [Hab _]]]].
     unfold comment_above. rewrite removelast_app by exact Hne.
     rewrite walk_up_app.
     2:{ intros v Hv. apply in_rev in Hv. now apply (pre_not_stop ind Hind g). }
+    cbn beta.
     rewrite rev_app_distr, rev_involutive, filter_app, map_app.
     unfold pre_lines. rewrite V_app, filter_app, filter_blanks. simpl app.
     destruct (filter_comments (f_above g) Hab) as [F1 F2]. rewrite F1, F2.
@@ -955,22 +961,25 @@ Section Above.
       + destruct (fline_view ind Hind g Hg) as [A _]. now rewrite A.
   Qed.
 
-  Lemma quiet_after g C : fld_ok g = true -> C <> [] -> quiet (rev (V (render_fld ind g)) ++ C).
+  Lemma quiet_after so g C : fld_ok g = true -> C <> [] -> quiet so (rev (V (render_fld ind g)) ++ C).
   Proof.
     intros Hg Hne. destruct (last_line_stop g Hg) as [vs [v [E Hs]]].
     split.
     - rewrite E, rev_app_distr. simpl. discriminate.
-    - rewrite removelast_app by exact Hne. rewrite E, rev_app_distr. simpl. rewrite Hs. intros w [].
+    - rewrite removelast_app by exact Hne. rewrite E, rev_app_distr. cbn [rev app walk_up].
+      unfold walk_stop. rewrite Hs. intros w [].
   Qed.
 
-  Lemma quiet_hdr hdr : hdr <> [] -> forallb (fun l => hdr_ok (vw l)) hdr = true -> quiet (rev (V hdr)).
+  Lemma quiet_hdr so hdr : hdr <> [] -> forallb (fun l => hdr_ok so (vw l)) hdr = true -> quiet so (rev (V hdr)).
   Proof.
     intros Hne H. split.
     - intros E. apply (f_equal (@rev _)) in E. rewrite rev_involutive in E. destruct hdr; [congruence | discriminate E].
     - intros v Hv. apply walk_up_sub in Hv as [Hv Hq]. apply in_removelast in Hv. apply in_rev in Hv.
       unfold V in Hv. apply in_map_iff in Hv as [l [<- Hl]].
       rewrite forallb_forall in H. specialize (H l Hl). unfold hdr_ok in H.
-      apply andb_true_iff in H as [_ H]. rewrite Hq in H. simpl in H. now apply String.eqb_eq.
+      apply andb_true_iff in H as [_ H]. unfold walk_stop in Hq.
+      apply orb_false_iff in Hq as [Hq Hq3]. apply orb_false_iff in Hq as [_ Hq2].
+      rewrite Hq2, Hq3 in H. simpl in H. now apply String.eqb_eq.
   Qed.
 End Above.
 
@@ -984,9 +993,9 @@ Section RoundTrip.
   Lemma blank_not_defines f n v : In v (V (repeat "" n)) -> defines f v = false.
   Proof. intros H. rewrite (blanks_views n v H), view_blank. reflexivity. Qed.
 
-  Lemma scan_fields f fs : forall C t,
-    forallb fld_ok fs = true -> quiet C ->
-    find_field f C (V (flat_map (render_fld ind) fs ++ repeat "" t)) = option_map triple (docs_fields fs f).
+  Lemma scan_fields so f fs : forall C t,
+    forallb fld_ok fs = true -> quiet so C ->
+    find_field so f C (V (flat_map (render_fld ind) fs ++ repeat "" t)) = option_map triple (docs_fields fs f).
   Proof.
     induction fs as [|g fs' IH]; intros C t Hfs HC.
     - simpl flat_map. simpl app. rewrite <- (app_nil_r (V _)).
@@ -1001,7 +1010,7 @@ Section RoundTrip.
         destruct (fline_view ind Hind g Hg) as [A [B [_ D]]].
         cbn [V map app find_field]. unfold defines. rewrite A, B, En. cbn [andb option_map].
         unfold triple, fld_doc; cbn [d_above d_inline d_below].
-        rewrite (comment_above_group ind Hind g C Hg HC), D.
+        rewrite (comment_above_group ind Hind so g C Hg HC), D.
         f_equal. f_equal.
         destruct (fld_ok_parts g Hg) as [_ [_ [_ [_ [_ Hbe]]]]].
         destruct (f_below g) as [d|].
@@ -1037,17 +1046,32 @@ Proof.
   apply quiet_hdr; [|exact Hh]. destruct (l_hdr L); [discriminate Hne | discriminate].
 Qed.
 
+(* the repairs the statements below rely on are present in the source (regenerated facts) *)
+Lemma fix_entry_on : FIX_ENTRY = true.
+Proof. reflexivity. Qed.
+Lemma fix_alias_on : FIX_ALIAS = true.
+Proof. reflexivity. Qed.
+
 (* the same statement one level up: _get_attribute_docstring on a class whose source, once the class docstring
-   has been cut out, is the printed layout *)
+   has been cut out, is the printed layout.  A class that does not declare the field still answers with the
+   field's entry in its class docstring, when there is one. *)
 Definition parts_of (d : fdoc) (entry : string) : parts := mkparts (d_above d) (d_inline d) (d_below d) entry.
+
+(* what one class answers: w = the documentation next to its own declaration of the field (None: not declared),
+   e = the field's entry in its class docstring *)
+Definition scan_of (we : option fdoc * string) : option parts :=
+  match fst we with
+  | Some d => Some (parts_of d (snd we))
+  | None => if str_nonempty (snd we) then Some (mkparts "" "" "" (snd we)) else None
+  end.
 
 Theorem scan_class_render k L f :
   wf_layout L = true -> code_lines k = Some (render L) ->
-  scan_class_gen k f = option_map (fun d => parts_of d (last_assoc f (k_args k) "")) (docs L f).
+  scan_class_gen k f = scan_of (docs L f, last_assoc f (k_args k) "").
 Proof.
-  intros Hwf Hc. unfold scan_class_gen, scan_class. rewrite Hc.
-  change (scan_lines HASH COLON EQUALS TRIPLE_S TRIPLE_D (render L) f) with (scan_lines_gen (render L) f).
-  rewrite (scan_render L f Hwf). destruct (docs L f) as [d|]; reflexivity.
+  intros Hwf Hc. unfold scan_class_gen, scan_class. rewrite Hc, fix_entry_on.
+  change (scan_lines HASH COLON EQUALS TRIPLE_S TRIPLE_D FIX_WALK (render L) f) with (scan_lines_gen (render L) f).
+  rewrite (scan_render L f Hwf). unfold scan_of. cbn [fst snd andb]. destruct (docs L f) as [d|]; reflexivity.
 Qed.
 
 (* ====================================================================== *)
@@ -1127,50 +1151,44 @@ Proof.
 Qed.
 
 (* ----- against the spec: chain of (documentation next to the declaration, class-docstring entry) ----- *)
-Definition scan_of (we : option fdoc * string) : option parts :=
-  match fst we with Some d => Some (parts_of d (snd we)) | None => None end.
 Definition prov_of (we : option fdoc * string) : provided := provided_by (fst we) (snd we).
-(* the class documents the field in its class docstring only if it also declares it *)
-Definition entry_declared (we : option fdoc * string) : bool :=
-  match fst we with Some _ => true | None => String.eqb (snd we) "" end.
 
 Definition sel_of (p : part) : provided -> string :=
   match p with PAbove => w_above | PInline => w_inline | PBelow => w_below | PCls => w_entry end.
 
 Lemma nearest_matches p chain :
-  forallb entry_declared chain = true ->
   nearest_part p (map scan_of chain) = nearest (sel_of p) (map prov_of chain).
 Proof.
-  induction chain as [|[w e] r IH]; intros H; [reflexivity|].
-  simpl in H. apply andb_true_iff in H as [Hd Hr]. specialize (IH Hr).
-  unfold entry_declared in Hd. simpl in Hd.
-  destruct w as [d|]; cbn [map nearest_part nearest scan_of prov_of fst snd]; rewrite IH.
-  - unfold str_nonempty, provided_by, parts_of.
+  induction chain as [|[w e] r IH]; [reflexivity|].
+  cbn [map]. destruct w as [d|].
+  - change (scan_of (Some d, e)) with (Some (parts_of d e)).
+    change (prov_of (Some d, e)) with (mkprov (d_above d) (d_inline d) (d_below d) e).
+    cbn [nearest_part nearest]. rewrite IH. unfold str_nonempty, parts_of.
     destruct p; cbn [get_part sel_of p_above p_inline p_below p_cls w_above w_inline w_below w_entry];
       destruct (String.eqb _ ""); reflexivity.
-  - apply String.eqb_eq in Hd. subst e. destruct p; reflexivity.
+  - change (scan_of (None, e)) with (if str_nonempty e then Some (mkparts "" "" "" e) else None).
+    change (prov_of (None, e)) with (mkprov "" "" "" e).
+    unfold str_nonempty. destruct (String.eqb e "") eqn:Ee; cbn [negb nearest_part nearest]; rewrite IH.
+    + apply String.eqb_eq in Ee. subst e. destruct p; reflexivity.
+    + unfold str_nonempty.
+      destruct p; cbn [get_part sel_of p_above p_inline p_below p_cls w_above w_inline w_below w_entry];
+        rewrite ?Ee; reflexivity.
 Qed.
 
-Theorem nearest_class_partial chain :
-  forallb entry_declared chain = true ->
+(* each kind of documentation comes from the nearest class of the chain that PROVIDES it - next to its own
+   declaration of the field, or in its class docstring (whether or not it re-declares the field) *)
+Theorem nearest_class_spec chain :
   parts_prov (result_of (acc_pure_gen (map scan_of chain) None)) = spec_parts (map prov_of chain).
 Proof.
-  intros H. unfold spec_parts.
-  pose proof (nearest_matches PAbove chain H) as E1. pose proof (nearest_matches PInline chain H) as E2.
-  pose proof (nearest_matches PBelow chain H) as E3. pose proof (nearest_matches PCls chain H) as E4.
+  unfold spec_parts.
+  pose proof (nearest_matches PAbove chain) as E1. pose proof (nearest_matches PInline chain) as E2.
+  pose proof (nearest_matches PBelow chain) as E3. pose proof (nearest_matches PCls chain) as E4.
   cbn [sel_of] in E1, E2, E3, E4. rewrite <- E1, <- E2, <- E3, <- E4.
   rewrite <- !nearest_class. unfold parts_prov. reflexivity.
 Qed.
 
-(* full strength fails: a subclass that documents an inherited field in its class docstring without
-   re-declaring it is skipped altogether *)
-Theorem nearest_class_refuted :
-  exists chain, parts_prov (result_of (acc_pure_gen (map scan_of chain) None)) <> spec_parts (map prov_of chain).
-Proof.
-  exists [(None, "entry in B"); (Some (mkfdoc "" "" ""), "entry in A")]. vm_compute. discriminate.
-Qed.
-
-(* ----- the lru_cache: a first query (fresh cache) is the pure accumulation ----- *)
+(* ----- the lru_cache: the accumulated object is a COPY, cached objects are never modified, so every query -
+   whatever was asked before, whatever the shape of the hierarchy - is answered as on a fresh cache ----- *)
 Lemma cache_get_set_other st k v k' : k' <> k -> cache_get (cache_set st k v) k' = cache_get st k'.
 Proof.
   intros Hne. induction st as [|[n w] r IH]; simpl.
@@ -1181,64 +1199,6 @@ Proof.
     + destruct (String.eqb n k'); [reflexivity | exact IH].
 Qed.
 
-Lemma acc_loop_fresh scan mro : forall created st,
-  NoDup mro ->
-  (forall k, In k mro -> cache_get st k = None) ->
-  match created with Some (k0, _) => ~ In k0 mro | None => True end ->
-  option_map snd (fst (acc_loop ACC_PARTS scan mro created st))
-  = acc_pure_gen (map scan mro) (option_map snd created).
-Proof.
-  unfold acc_pure_gen.
-  induction mro as [|k r IH]; intros created st Hnd Hst Hc; [reflexivity|].
-  inversion Hnd as [|? ? Hk Hr]; subst.
-  cbn [acc_loop map acc_pure]. unfold fetch. rewrite (Hst k (or_introl eq_refl)).
-  assert (Hst1 : forall k', In k' r -> cache_get (cache_set st k (scan k)) k' = None).
-  { intros k' Hk'. rewrite cache_get_set_other by (intros ->; contradiction).
-    apply Hst. now right. }
-  destruct (scan k) as [d|].
-  - destruct created as [[k0 c]|].
-    + rewrite IH; [reflexivity | exact Hr | | intros H; apply Hc; now right].
-      intros k' Hk'. rewrite cache_get_set_other.
-      * now apply Hst1.
-      * intros ->. apply Hc. now right.
-    + rewrite IH; [reflexivity | exact Hr | exact Hst1 | exact Hk].
-  - rewrite IH; [reflexivity | exact Hr | exact Hst1 |].
-    destruct created as [[k0 c]|]; [|exact I]. intros H. apply Hc. now right.
-Qed.
-
-Theorem get_doc_fresh scan mro :
-  NoDup mro -> fst (get_doc_gen scan mro []) = result_of (acc_pure_gen (map scan mro) None).
-Proof.
-  intros Hnd. pose proof (acc_loop_fresh scan mro None [] Hnd (fun _ _ => eq_refl) I) as H.
-  unfold get_doc_gen, get_doc. simpl option_map in H.
-  destruct (acc_loop ACC_PARTS scan mro None []) as [[[k0 c]|] st']; simpl in H |- *; rewrite <- H; reflexivity.
-Qed.
-
-(* ... but a later query can see what an unrelated class wrote into the cached object: D(A, X), X not in A's chain *)
-Theorem history_independent_refuted :
-  exists (scan : string -> option parts) (mroD mroA : list string),
-    NoDup mroD /\ NoDup mroA /\
-    nth 1 (run_queries_gen scan [mroD; mroA] []) EMPTY_PARTS <> fst (get_doc_gen scan mroA []).
-Proof.
-  exists (fun k => if String.eqb k "A" then Some (mkparts "" "inline of A.x" "" "")
-                   else if String.eqb k "X" then Some (mkparts "" "" "below of X.x" "") else None),
-         ["D"; "A"; "X"], ["A"].
-  split; [repeat constructor; simpl; intuition discriminate|].
-  split; [repeat constructor; simpl; intuition|].
-  vm_compute. discriminate.
-Qed.
-
-(* ----- the lru_cache on a LINEAR hierarchy: every query is answered as on a fresh cache ----- *)
-Lemma parts_ext a b : (forall p, get_part p a = get_part p b) -> a = b.
-Proof.
-  intros H. destruct a as [a1 a2 a3 a4], b as [b1 b2 b3 b4].
-  pose proof (H PAbove) as H1. pose proof (H PInline) as H2. pose proof (H PBelow) as H3. pose proof (H PCls) as H4.
-  simpl in *. now subst.
-Qed.
-
-Definition pure_result (scan : string -> option parts) (mro : list string) : parts :=
-  result_of (acc_pure_gen (map scan mro) None).
-
 Lemma cache_get_set_same st k v : cache_get (cache_set st k v) k = Some v.
 Proof.
   induction st as [|[n w] r IH]; simpl.
@@ -1246,262 +1206,70 @@ Proof.
   - destruct (String.eqb n k) eqn:E; simpl; rewrite E; [reflexivity | exact IH].
 Qed.
 
-Fixpoint strs_eqb' (a b : list string) : bool :=
-  match a, b with
-  | [], [] => true
-  | x :: r, y :: s => String.eqb x y && strs_eqb' r s
-  | _, _ => false
-  end.
-Lemma strs_eqb'_eq a : forall b, strs_eqb' a b = true -> a = b.
-Proof.
-  induction a as [|x r IH]; intros [|y s] H; simpl in H; try discriminate; [reflexivity|].
-  apply andb_true_iff in H as [H1 H2]. apply String.eqb_eq in H1. subst. f_equal. now apply IH.
-Qed.
+Definition pure_result (scan : string -> option parts) (mro : list string) : parts :=
+  result_of (acc_pure_gen (map scan mro) None).
 
-(* q is a suffix of chain: the MRO of a class of a single-inheritance chain *)
-Fixpoint suffixb (q chain : list string) : bool :=
-  strs_eqb' q chain || match chain with [] => false | _ :: r => suffixb q r end.
-
-Lemma suffixb_spec q chain : suffixb q chain = true -> exists pre, chain = (pre ++ q)%list.
-Proof.
-  induction chain as [|c r IH]; simpl; intros H.
-  - rewrite orb_false_r in H. apply strs_eqb'_eq in H. subst. now exists [].
-  - apply orb_true_iff in H as [H|H].
-    + apply strs_eqb'_eq in H. subst. now exists [].
-    + destruct (IH H) as [pre ->]. now exists (c :: pre).
-Qed.
-
-Section Linear.
+Section Cache.
   Variable scan : string -> option parts.
 
-  (* the value a class contributes to a query: the cached object if there is one, else a fresh scan *)
-  Definition val (st : cache) (k : string) : option parts :=
-    match cache_get st k with Some v => v | None => scan k end.
+  (* every cached object is the class's own scan result *)
+  Definition clean (st : cache) : Prop := forall k v, cache_get st k = Some v -> v = scan k.
 
-  (* what the loop does, in terms of those values *)
-  Lemma acc_loop_vals mro : forall created st,
-    NoDup mro ->
-    match created with Some (k0, c) => ~ In k0 mro /\ cache_get st k0 = Some (Some c) | None => True end ->
-    let res := acc_loop ACC_PARTS scan mro created st in
-    option_map snd (fst res) = acc_pure_gen (map (val st) mro) (option_map snd created)
-    /\ (forall k, ~ In k mro -> match created with Some (k0, _) => k <> k0 | None => True end ->
-                  cache_get (snd res) k = cache_get st k)
-    /\ (forall k, In k mro -> match fst res with Some (k0, _) => k <> k0 | None => True end ->
-                  cache_get (snd res) k = Some (val st k))
-    /\ match fst res with
-       | Some (k0, c) => cache_get (snd res) k0 = Some (Some c)
-                         /\ (match created with
-                             | Some (k1, _) => k0 = k1
-                             | None => exists q1 q2, mro = (q1 ++ k0 :: q2)%list
-                                                     /\ (forall x, In x q1 -> val st x = None) /\ val st k0 <> None
-                             end)
-       | None => created = None
-       end.
+  Lemma fetch_clean st k : clean st -> fst (fetch scan st k) = scan k /\ clean (snd (fetch scan st k)).
+  Proof.
+    intros Hc. unfold fetch. destruct (cache_get st k) as [v|] eqn:E; cbn [fst snd].
+    - split; [now apply Hc | exact Hc].
+    - split; [reflexivity|]. intros k' v' H.
+      destruct (string_dec k' k) as [->|Hne].
+      + rewrite cache_get_set_same in H. now injection H as <-.
+      + rewrite cache_get_set_other in H by exact Hne. now apply Hc.
+  Qed.
+
+  Lemma acc_loop_clean mro : forall created st, clean st ->
+    option_map snd (fst (acc_loop ACC_PARTS true scan mro created st))
+      = acc_pure_gen (map scan mro) (option_map snd created)
+    /\ clean (snd (acc_loop ACC_PARTS true scan mro created st)).
   Proof.
     unfold acc_pure_gen.
-    induction mro as [|k r IH]; intros created st Hnd Hc.
-    - cbn [acc_loop map acc_pure fst snd]. cbn zeta.
-      split; [reflexivity|]. split; [intros; reflexivity|]. split; [intros k []|].
-      destruct created as [[k0 c]|]; [split; [apply Hc | reflexivity] | reflexivity].
-    - inversion Hnd as [|? ? Hk Hr]; subst.
-      cbn [acc_loop map acc_pure].
-      (* the fetch *)
-      remember (val st k) as v eqn:Ev0.
-      set (st1 := match cache_get st k with Some _ => st | None => cache_set st k (scan k) end).
-      assert (Hf : fetch scan st k = (v, st1)).
-      { unfold fetch, st1. rewrite Ev0. unfold val. destruct (cache_get st k); reflexivity. }
-      rewrite Hf.
-      assert (G1 : forall k', k' <> k -> cache_get st1 k' = cache_get st k').
-      { intros k' Hne. unfold st1. destruct (cache_get st k); [reflexivity|]. now apply cache_get_set_other. }
-      assert (G2 : cache_get st1 k = Some v).
-      { unfold st1. rewrite Ev0. unfold val. destruct (cache_get st k) eqn:E; [exact E | apply cache_get_set_same]. }
-      assert (V1 : forall k', k' <> k -> val st1 k' = val st k').
-      { intros k' Hne. unfold val. now rewrite G1. }
-      assert (Vr : map (val st1) r = map (val st) r).
-      { apply map_ext_in. intros k' Hk'. apply V1. intros ->. contradiction. }
-      destruct v as [d|].
-      + destruct created as [[k0 c]|].
-        * (* merge into the created object, written back under k0 *)
-          destruct Hc as [Hc1 Hc2].
-          assert (Hk0 : k0 <> k) by (intros ->; apply Hc1; now left).
-          set (c' := merge ACC_PARTS c d).
-          set (st2 := cache_set st1 k0 (Some c')).
-          assert (V2 : forall k', k' <> k -> k' <> k0 -> val st2 k' = val st k').
-          { intros k' N1 N2. unfold val, st2. rewrite cache_get_set_other by exact N2. now rewrite G1. }
-          assert (Vr2 : map (val st2) r = map (val st) r).
-          { apply map_ext_in. intros k' Hk'. apply V2; intros ->; [contradiction | apply Hc1; now right]. }
-          destruct (IH (Some (k0, c')) st2 Hr) as [I1 [I2 [I3 I4]]].
-          { split; [intros H; apply Hc1; now right | apply cache_get_set_same]. }
-          cbn zeta in I1, I2, I3, I4. rewrite Vr2 in I1.
-          destruct (acc_loop ACC_PARTS scan r (Some (k0, c')) st2) as [res st'] eqn:ER.
-          cbn [fst snd option_map] in *. cbn zeta. split; [exact I1|]. split; [|split].
-          -- intros k' N1 N2. rewrite I2; [| intros H; apply N1; now right | exact N2].
-             unfold st2. rewrite cache_get_set_other by exact N2. apply G1. intros ->. apply N1. now left.
-          -- intros k' [<-|Hk'] N.
-             ++ destruct res as [[k1 c1]|]; [|discriminate I4].
-                destruct I4 as [_ ->]. rewrite I2; [| exact Hk | congruence].
-                unfold st2. rewrite cache_get_set_other by congruence. rewrite G2. now rewrite <- Ev0.
-             ++ rewrite I3 by assumption. f_equal. apply V2; [intros ->; contradiction|].
-                intros ->. apply Hc1. now right.
-          -- destruct res as [[k1 c1]|]; [|discriminate I4].
-             destruct I4 as [I4 ->]. split; [exact I4 | reflexivity].
-        * (* first class that defines the field *)
-          destruct (IH (Some (k, d)) st1 Hr) as [I1 [I2 [I3 I4]]].
-          { split; [exact Hk | exact G2]. }
-          cbn zeta in I1, I2, I3, I4. rewrite Vr in I1.
-          destruct (acc_loop ACC_PARTS scan r (Some (k, d)) st1) as [res st'] eqn:ER.
-          cbn [fst snd option_map] in *. cbn zeta. split; [exact I1|]. split; [|split].
-          -- intros k' N1 _. rewrite I2; [| intros H; apply N1; now right | intros ->; apply N1; now left].
-             apply G1. intros ->. apply N1. now left.
-          -- intros k' [<-|Hk'] N.
-             ++ destruct res as [[k1 c1]|]; [|discriminate I4].
-                destruct I4 as [_ ->]. congruence.
-             ++ rewrite I3 by assumption. f_equal. apply V1. intros ->. contradiction.
-          -- destruct res as [[k1 c1]|]; [|discriminate I4].
-             destruct I4 as [I4 ->]. split; [exact I4|]. exists [], r.
-             split; [reflexivity|]. split; [intros x []|]. rewrite <- Ev0. discriminate.
-      + (* the class does not define the field *)
-        destruct (IH created st1 Hr) as [I1 [I2 [I3 I4]]].
-        { destruct created as [[k0 c]|]; [|exact I]. destruct Hc as [Hc1 Hc2].
-          split; [intros H; apply Hc1; now right|]. rewrite G1; [exact Hc2 | intros ->; apply Hc1; now left]. }
-        cbn zeta in I1, I2, I3, I4. rewrite Vr in I1.
-        destruct (acc_loop ACC_PARTS scan r created st1) as [res st'] eqn:ER.
-        cbn [fst snd option_map] in *. cbn zeta. split; [exact I1|]. split; [|split].
-        * intros k' N1 N2. rewrite I2; [| intros H; apply N1; now right | exact N2].
-          apply G1. intros ->. apply N1. now left.
-        * intros k' [<-|Hk'] N.
-          -- rewrite I2; [rewrite G2; now rewrite <- Ev0 | exact Hk |].
-             destruct created as [[k0 c]|]; [|exact I]. intros ->. apply (proj1 Hc). now left.
-          -- rewrite I3 by assumption. f_equal. apply V1. intros ->. contradiction.
-        * destruct res as [[k1 c1]|]; [|exact I4].
-          destruct I4 as [I4 I5]. split; [exact I4|].
-          destruct created as [[k0 c]|]; [exact I5|]. destruct I5 as [q1 [q2 [E [I5 I6]]]].
-          assert (Hk1 : In k1 r) by (rewrite E; apply in_or_app; right; now left).
-          exists (k :: q1), q2. split; [simpl; now rewrite E|]. split.
-          -- intros x [<-|Hx]; [now rewrite <- Ev0|]. rewrite <- V1; [now apply I5|].
-             intros ->. apply Hk. rewrite E. apply in_or_app. now left.
-          -- rewrite <- V1; [exact I6 | intros ->; contradiction].
+    induction mro as [|k r IH]; intros created st Hc; [split; [reflexivity | exact Hc]|].
+    cbn [acc_loop map acc_pure].
+    destruct (fetch_clean st k Hc) as [F1 F2]. destruct (fetch scan st k) as [v st1]. cbn [fst snd] in F1, F2.
+    subst v. destruct (scan k) as [d|].
+    - destruct created as [[k0 c]|]; apply (IH _ st1 F2).
+    - apply (IH created st1 F2).
   Qed.
-End Linear.
 
-Lemma nodup_app_r {A} (a b : list A) : NoDup (a ++ b) -> NoDup b.
-Proof. induction a as [|x r IH]; simpl; intros H; [exact H|]. inversion H; subst. now apply IH. Qed.
-
-Section LinearChain.
-  Variable scan : string -> option parts.
-  Variable chain : list string.
-  Hypothesis Hnd : NoDup chain.
-
-  (* the part of the chain from class k upwards *)
-  Fixpoint from (k : string) (l : list string) : list string :=
-    match l with [] => [] | x :: r => if String.eqb x k then l else from k r end.
-
-  Lemma from_suffix k : forall pre S l, l = (pre ++ k :: S)%list -> ~ In k pre -> from k l = k :: S.
+  Lemma get_doc_clean mro st : clean st ->
+    fst (get_doc_gen scan mro st) = pure_result scan mro /\ clean (snd (get_doc_gen scan mro st)).
   Proof.
-    induction pre as [|x r IH]; intros S l -> Hn; simpl.
-    - now rewrite String.eqb_refl.
-    - destruct (String.eqb x k) eqn:E.
-      + apply String.eqb_eq in E. subst. exfalso. apply Hn. now left.
-      + apply IH; [reflexivity | intros H; apply Hn; now right].
+    intros Hc. unfold get_doc_gen, get_doc. rewrite fix_alias_on.
+    destruct (acc_loop_clean mro None st Hc) as [A B]. cbn [option_map] in A.
+    destruct (acc_loop ACC_PARTS true scan mro None st) as [[[k0 c]|] st']; cbn [fst snd option_map] in *;
+      (split; [unfold pure_result; rewrite <- A; reflexivity | exact B]).
   Qed.
 
-  (* every cached object is either the class's own scan result or the accumulation from that class upwards *)
-  Definition good (st : cache) : Prop :=
-    forall k v, cache_get st k = Some v ->
-      v = scan k \/ (scan k <> None /\ v = Some (pure_result scan (from k chain))).
-
-  Lemma val_none st k : good st -> val scan st k = None -> scan k = None.
-  Proof.
-    unfold val. intros Hg H. destruct (cache_get st k) as [v|] eqn:E; [|exact H].
-    subst v. destruct (Hg k None E) as [H1|[_ H1]]; [now symmetry | discriminate H1].
-  Qed.
-
-  Lemma val_some st k : good st -> val scan st k <> None -> scan k <> None.
-  Proof.
-    unfold val. intros Hg H. destruct (cache_get st k) as [v|] eqn:E; [|exact H].
-    destruct (Hg k v E) as [H1|[H1 _]]; [now rewrite <- H1 | exact H1].
-  Qed.
-
-  Lemma nearest_vals st p : good st -> forall S pre, chain = (pre ++ S)%list ->
-    nearest_part p (map (val scan st) S) = nearest_part p (map scan S).
-  Proof.
-    intros Hg. induction S as [|k S' IH]; intros pre E; [reflexivity|].
-    assert (IH' : nearest_part p (map (val scan st) S') = nearest_part p (map scan S')).
-    { apply (IH (pre ++ [k])%list). now rewrite <- app_assoc. }
-    cbn [map]. unfold val at 1. destruct (cache_get st k) as [v|] eqn:Ec.
-    - destruct (Hg k v Ec) as [->|[Hs ->]].
-      + destruct (scan k); cbn [nearest_part]; now rewrite IH'.
-      + assert (Hfrom : from k chain = k :: S').
-        { apply (from_suffix k pre S' chain E). intros Hin.
-          rewrite E in Hnd. apply NoDup_remove_2 in Hnd. apply Hnd. apply in_or_app. now left. }
-        rewrite Hfrom. cbn [nearest_part]. unfold pure_result. rewrite nearest_class, IH'.
-        cbn [map]. destruct (scan k) as [d0|]; [|congruence]. cbn [nearest_part].
-        destruct (str_nonempty (get_part p d0)) eqn:E0.
-        * now rewrite E0.
-        * destruct (str_nonempty (nearest_part p (map scan S'))); reflexivity.
-    - destruct (scan k); cbn [nearest_part]; now rewrite IH'.
-  Qed.
-
-  Lemma acc_pure_skip_none q1 : forall l cr, (forall x, In x q1 -> scan x = None) ->
-    acc_pure_gen (map scan (q1 ++ l)) cr = acc_pure_gen (map scan l) cr.
-  Proof.
-    unfold acc_pure_gen. induction q1 as [|x r IH]; intros l cr H; [reflexivity|].
-    cbn [app map acc_pure]. rewrite (H x (or_introl eq_refl)). apply IH. intros y Hy. apply H. now right.
-  Qed.
-
-  (* one query on a good cache: the fresh answer, and the cache stays good *)
-  Lemma query_good q st : suffixb q chain = true -> good st ->
-    fst (get_doc_gen scan q st) = pure_result scan q /\ good (snd (get_doc_gen scan q st)).
-  Proof.
-    intros Hq Hg. destruct (suffixb_spec q chain Hq) as [pre E].
-    assert (Hndq : NoDup q) by (rewrite E in Hnd; now apply nodup_app_r in Hnd).
-    destruct (acc_loop_vals scan q None st Hndq I) as [I1 [I2 [I3 I4]]]. cbn zeta in *.
-    unfold get_doc_gen, get_doc.
-    destruct (acc_loop ACC_PARTS scan q None st) as [res st'] eqn:ER. cbn [fst snd option_map] in *.
-    assert (Hres : result_of (option_map snd res) = pure_result scan q).
-    { rewrite I1. apply parts_ext. intros p. unfold pure_result. rewrite !nearest_class.
-      now apply (nearest_vals st p Hg q pre). }
-    split.
-    - rewrite <- Hres. destruct res as [[k0 c]|]; reflexivity.
-    - assert (Hother : forall k v, (match res with Some (k0, _) => k <> k0 | None => True end) ->
-                                   cache_get st' k = Some v ->
-                                   v = scan k \/ (scan k <> None /\ v = Some (pure_result scan (from k chain)))).
-      { intros k v Hne Hc. destruct (in_dec string_dec k q) as [Hin|Hnin].
-        - rewrite (I3 k Hin Hne) in Hc. injection Hc as <-. unfold val.
-          destruct (cache_get st k) as [v'|] eqn:E'; [now apply (Hg k v') | now left].
-        - rewrite (I2 k Hnin I) in Hc. now apply (Hg k v). }
-      destruct res as [[k0 c]|]; cbn [fst snd] in *.
-      + destruct I4 as [I4 [q1 [q2 [Eq [Hq1 Hk0]]]]].
-        intros k v Hc. destruct (string_dec k k0) as [->|Hne]; [|now apply Hother].
-        rewrite I4 in Hc. injection Hc as <-. right. split; [now apply (val_some st)|].
-        f_equal. simpl in Hres. rewrite Hres. unfold pure_result. rewrite Eq.
-        rewrite acc_pure_skip_none by (intros x Hx; apply (val_none st x Hg); now apply Hq1).
-        f_equal. f_equal. f_equal. symmetry. apply (from_suffix k0 (pre ++ q1) q2).
-        * rewrite E, Eq. now rewrite <- app_assoc.
-        * intros Hin. rewrite E, Eq, app_assoc in Hnd. apply NoDup_remove_2 in Hnd. apply Hnd.
-          apply in_or_app. now left.
-      + intros k v Hc. now apply Hother.
-  Qed.
-
-  (* any history of queries along one single-inheritance chain *)
-  Lemma run_queries_good qs : forall st, good st -> forallb (fun q => suffixb q chain) qs = true ->
+  Lemma run_queries_clean qs : forall st, clean st ->
     run_queries_gen scan qs st = map (pure_result scan) qs.
   Proof.
     unfold run_queries_gen.
-    induction qs as [|q r IH]; intros st Hg H; [reflexivity|].
-    simpl in H. apply andb_true_iff in H as [Hq Hr].
-    destruct (query_good q st Hq Hg) as [Q1 Q2]. unfold get_doc_gen in Q1, Q2.
-    cbn [run_queries map]. destruct (get_doc ACC_PARTS scan q st) as [d st'].
+    induction qs as [|q r IH]; intros st Hc; [reflexivity|].
+    destruct (get_doc_clean q st Hc) as [Q1 Q2]. unfold get_doc_gen in Q1, Q2.
+    cbn [run_queries map]. destruct (get_doc ACC_PARTS FIX_ALIAS scan q st) as [d st'].
     cbn [fst snd] in Q1, Q2. rewrite Q1. f_equal. now apply IH.
   Qed.
-End LinearChain.
+End Cache.
 
-Theorem history_independent_partial scan chain qs :
-  NoDup chain -> forallb (fun q => suffixb q chain) qs = true ->
+Lemma clean_nil scan : clean scan [].
+Proof. intros k v H. discriminate H. Qed.
+
+(* a query is the pure accumulation over the MRO *)
+Theorem get_doc_pure scan mro : fst (get_doc_gen scan mro []) = pure_result scan mro.
+Proof. exact (proj1 (get_doc_clean scan mro [] (clean_nil scan))). Qed.
+
+(* and it does not depend on what was queried before: any classes, any hierarchy, any order *)
+Theorem history_independent scan qs :
   run_queries_gen scan qs [] = map (fun mro => fst (get_doc_gen scan mro [])) qs.
 Proof.
-  intros Hnd H. rewrite (run_queries_good scan chain Hnd qs []); [|intros k v Hc; discriminate Hc | exact H].
-  apply map_ext_in. intros q Hq. symmetry. apply get_doc_fresh.
-  rewrite forallb_forall in H. destruct (suffixb_spec q chain (H q Hq)) as [pre E].
-  rewrite E in Hnd. now apply nodup_app_r in Hnd.
+  rewrite (run_queries_clean scan qs [] (clean_nil scan)).
+  apply map_ext. intros q. symmetry. apply get_doc_pure.
 Qed.
